@@ -287,6 +287,9 @@ def body_real_sync(w1, w2, w3):
     from xv.core import picks, untraced
     ws = picks((w1, w2, w3), (RS_WRITES, RS_WRITES, RS_WRITES))
     with untraced():
+        from xv.core import real_stack
+        if not real_stack("wsgi"):
+            return (True, "real-unavailable")
         import json
         import os
         import subprocess
